@@ -11,6 +11,7 @@ class Tap:
     """Records every value returned by a distribution's draw_mw (observation point named by C07)."""
     current = None
     installed = False
+    forced = None      # list of values answered instead of drawing (specification -> code replay with the targets of a TLC behaviour)
 
     @classmethod
     def install(cls, g):
@@ -24,7 +25,12 @@ class Tap:
                 orig = k.__dict__["draw_mw"]
 
                 def wrapped(self_, rng=None, _o=orig):
-                    v = _o(self_, rng)
+                    if Tap.forced is not None:
+                        if not Tap.forced:
+                            raise RuntimeError("replay: more draws than the behaviour of the specification has")
+                        v = Tap.forced.pop(0)
+                    else:
+                        v = _o(self_, rng)
                     cur = Tap.current
                     if cur is not None:
                         cur.events.append({"kind": "draw", "val": float(v), "same_rng": rng is cur,
@@ -136,8 +142,8 @@ class Tree:
             json.dump(self.nodes, f)
 
 
-def run_scripted(obj, script, qgrid=None, projector=project, call=None):
-    rng = ScriptedRNG(script, qgrid)
+def run_scripted(obj, script, qgrid=None, projector=project, call=None, min_p=0.0):
+    rng = ScriptedRNG(script, qgrid, min_p=min_p)
     Tap.current = rng
     try:
         mg = call(obj, rng) if call else obj.generate(rng=rng)
@@ -151,7 +157,7 @@ def run_scripted(obj, script, qgrid=None, projector=project, call=None):
     return merge_events(rng.events), obs
 
 
-def explore(obj, max_nodes=20000, max_seconds=60, qgrid=None, projector=project, call=None, max_depth=400):
+def explore(obj, max_nodes=20000, max_seconds=60, qgrid=None, projector=project, call=None, max_depth=400, min_p=0.0):
     """Depth-first enumeration of every option of non-zero probability at every call of the generator."""
     tree = Tree()
     stack = [[]]
@@ -161,7 +167,7 @@ def explore(obj, max_nodes=20000, max_seconds=60, qgrid=None, projector=project,
             tree.truncated = True
             break
         script = stack.pop()
-        steps, obs = run_scripted(obj, script, qgrid, projector, call)
+        steps, obs = run_scripted(obj, script, qgrid, projector, call, min_p)
         if len(steps) > max_depth:
             tree.truncated = True
         tree.add_run(steps, obs)
